@@ -162,11 +162,83 @@ fn mode_parse() {
     }
 }
 
+fn variant_name(dbg: &str) -> String {
+    dbg.chars().take_while(|c| c.is_alphanumeric() || *c == '_').collect()
+}
+
+fn dump_locale(ns: &str, locale: &leptos_i18n_parser::parse_locales::locale::Locale, prefix: &str, top: &str, o: &mut dyn Write) {
+    for (k, v) in &locale.keys {
+        let path = if prefix.is_empty() { k.name.to_string() } else { format!("{}.{}", prefix, k.name) };
+        match v {
+            ParsedValue::Subkeys(Some(sub)) => dump_locale(ns, sub, &path, top, o),
+            ParsedValue::Subkeys(None) => writeln!(o, "V\t{}\t{}\t{}\tSUBKEYS_NONE", ns, top, path).unwrap(),
+            ParsedValue::Default => writeln!(o, "V\t{}\t{}\t{}\tDEFAULT", ns, top, path).unwrap(),
+            v => {
+                let mut out = String::new();
+                let mut has_fk = false;
+                if ppv(v, &mut out, &mut has_fk) {
+                    writeln!(o, "V\t{}\t{}\t{}\t{}", ns, top, path, out).unwrap();
+                } else {
+                    writeln!(o, "V\t{}\t{}\t{}\tOTHER {:?}", ns, top, path, v).unwrap();
+                }
+            }
+        }
+    }
+    writeln!(o, "S\t{}\t{}\t{}\t{}", ns, top, prefix, locale.strings.len()).unwrap();
+}
+
+/// one project directory per stdin line: the whole loading pipeline (parse_locales), final values per locale/key
+fn mode_project() {
+    use leptos_i18n_parser::parse_locales::{locale::BuildersKeys, parse_locales};
+    let stdin = std::io::stdin();
+    let mut o = std::io::BufWriter::new(std::io::stdout().lock());
+    for line in stdin.lock().lines() {
+        let dir = line.unwrap();
+        let d2 = dir.clone();
+        let r = std::panic::catch_unwind(move || {
+            let mut buf: Vec<u8> = Vec::new();
+            match parse_locales(false, Some(std::path::PathBuf::from(&d2))) {
+                Ok((keys, warnings, _tracked)) => {
+                    writeln!(buf, "RESULT\tok").unwrap();
+                    match &keys {
+                        BuildersKeys::Locales { locales, .. } => {
+                            for l in locales { dump_locale("-", l, "", &l.name.name, &mut buf); }
+                        }
+                        BuildersKeys::NameSpaces { namespaces, .. } => {
+                            for ns in namespaces {
+                                for l in &ns.locales { dump_locale(&ns.key.name, l, "", &l.name.name, &mut buf); }
+                            }
+                        }
+                    }
+                    let mut ws: Vec<String> = warnings.into_inner().iter().map(|w| format!("{:?}", w)).collect();
+                    ws.sort();
+                    for w in ws { writeln!(buf, "W\t{}", w.replace('\n', " ")).unwrap(); }
+                }
+                Err(e) => {
+                    let dbg = format!("{:?}", e).replace('\n', " ");
+                    writeln!(buf, "RESULT\terr\t{}\t{}", variant_name(&dbg), dbg).unwrap();
+                }
+            }
+            buf
+        });
+        match r {
+            Ok(buf) => o.write_all(&buf).unwrap(),
+            Err(p) => {
+                let msg = p.downcast_ref::<String>().cloned().or_else(|| p.downcast_ref::<&str>().map(|s| s.to_string())).unwrap_or_default();
+                writeln!(o, "RESULT\tPANIC\t{}", msg.replace('\n', " ")).unwrap();
+            }
+        }
+        writeln!(o, "END\t{}", dir).unwrap();
+        o.flush().unwrap();
+    }
+}
+
 fn main() {
     std::panic::set_hook(Box::new(|_| {}));
     let mode = std::env::args().nth(1).unwrap_or_default();
     match mode.as_str() {
         "parse" => mode_parse(),
+        "project" => mode_project(),
         _ => { eprintln!("unknown mode {mode:?}"); std::process::exit(2); }
     }
 }
